@@ -132,6 +132,10 @@ def step (st : State) (line : String) : State × String :=
     | none => (st, "bad-op")
   | ["variant", v] => ({ st with v := if v == "legacy" then .legacy else .fixed }, "ok")
   | ["state"] => (st, stateStr st.s)
+  | ["ports"] =>
+    -- the ports a listener is bound to (enabled proxies), sorted
+    let ps := (portsInUse st.env st.s).toArray.qsort (· < ·)
+    (st, " ".intercalate (ps.toList.map toString))
   | ["envok"] => (st, bstr (spellingOK st.env))
   | "req" :: m :: path :: ua :: body =>
     match parsePath path, parseBody body with
